@@ -25,6 +25,8 @@ A11 = ("A11 shape-level contracts of curves.py (engine V, C15): a knot vector is
        "the postconditions PROVED for those functions (the correspondence is by construction and hand review, not machine-checked)")
 A12 = ("A12 engine V treats distinct object parameters as distinct objects (no aliasing between `self` and `other`), and does not decide the identity "
        "of two symbolic VALUE objects (immutable payloads): an `is` test between them puts the function outside V (bounded checks decide)")
+A13 = ("A13 call-site contracts used inside the engine-V proofs of Curve.eval and FunctionEvaluator.eval: the private `__eval` returns one value per node "
+       "(resp. the npts x len(nodes) table) in order, or raises ValueError for a node outside the interval; their values are what engine S checks per shape")
 S_COMMON = [A1, A2, A3, A5, A6, A7, A8]
 TRUSTED = ["CPython 3.12", "numpy 2.5 object-dtype loops", "fractions.Fraction", "sympy 1.14 polys.fields", "z3-solver 5.1.0", "cvc5 1.4.0",
            "vlib/spec.py (Cox-de Boor spec, written from the definition)"]
